@@ -66,3 +66,15 @@ pub proof fn lemma_dec_slice(v: &[Value], i: int)
     requires 0 <= i < v@.len()
     ensures decreases_to!(v@ => v@[i])
 {}
+// T7: #[derive(Serialize, Deserialize, Clone, PartialEq)] on SDJWTJson (A-JSON: field order as declared, Option as null)
+pub open spec fn opt_str_j(o: Option<String>) -> J { match o { Some(s) => J::Str(s@), None => J::Null } }
+impl serde_json::ToJ for SDJWTJson {
+    open spec fn to_j(&self) -> J {
+        J::Obj(seq![("protected"@, J::Str(self.protected@)), ("payload"@, J::Str(self.payload@)), ("signature"@, J::Str(self.signature@)),
+                    ("disclosures"@, J::Arr(self.disclosures@.map_values(|s: String| J::Str(s@)))), ("kb_jwt"@, opt_str_j(self.kb_jwt))])
+    }
+}
+impl Clone for SDJWTJson {
+    #[verifier::external_body]
+    fn clone(&self) -> (r: Self) ensures r == *self { unimplemented!() }
+}
